@@ -807,7 +807,7 @@ class Stream(AbstractStream):
 
     def reset_cache(self):
         """Reset cache regarding equilibrium methods."""
-        self._property_cache_key = None, None
+        self._property_cache_key = [None, None]
         self._property_cache = {}
 
     @classmethod
@@ -1215,7 +1215,7 @@ class Stream(AbstractStream):
                     return value * total if flow else value
             else:
                 property_cache.clear()
-            self._property_cache_key = (literal, composition_key.copy())
+            self._property_cache_key[:] = (literal, composition_key.copy())
             calculate = getattr(self.mixture, name)
             if nophase:
                 property_cache[name] = value = calculate(
